@@ -1014,6 +1014,38 @@ fn cast_into_memory(
         return Some(memory.into_value(builder, ptr_ty));
     }
 
+    // a variant going into a sum type that holds its enum (`?Enum`, `Enum!T`, `E!Enum`) has to be
+    // wrapped as a variant: once unwrapped it would be mistaken for its payload
+    if matches!(cast_from.as_ref(), Ty::EnumVariant { .. }) {
+        let wrapped = match cast_to.as_ref() {
+            Ty::Optional { sub_ty } if cast_to.is_tagged_union() && cast_from.can_fit_into(sub_ty) => {
+                Some((*sub_ty, 1))
+            }
+            Ty::ErrorUnion { payload_ty, .. } if cast_from.can_fit_into(payload_ty) => {
+                Some((*payload_ty, 1))
+            }
+            Ty::ErrorUnion { error_ty, .. } if cast_from.can_fit_into(error_ty) => {
+                Some((*error_ty, 0))
+            }
+            _ => None,
+        };
+        if let Some((inner_ty, discrim)) = wrapped {
+            return Some(cast_payload_into_tagged_union(
+                meta_tys,
+                module,
+                builder,
+                func_writer,
+                ptr_ty,
+                val,
+                cast_from,
+                inner_ty,
+                cast_to,
+                discrim,
+                memory,
+            ));
+        }
+    }
+
     // if it wasn't variant -> enum, we unwrap the variant fully and check for other casts
     cast_from = cast_from.absolute_intern_ty(true);
 
